@@ -19,6 +19,9 @@ CLAIMS = {
  'C08': ("Full statement proved for the model: C08_state_irrelevant (any two prior states/dendrograms incl. those left by panicking calls), C08_history (any sequence of earlier calls), C08_repeat, C08_reset_bodies (reset bodies translated from the source give one canonical value from every prior value), C08_prologue (translated call sites), C08_no_shared_state (translated scan). History correspondence: shared objects vs fresh objects vs model, with panicking calls, run concurrently on all cores.",
          "Lean kernel + standard axioms; translator for the five reset bodies, the _with prologues and the purity scan; soundness of safe Rust for the threads part; what happens between reset and the loops is hand-modelled, tied by the history correspondence.",
          "Lean 4 theorem (reset = fresh for all prior states) over translated reset bodies + history correspondence"),
+ 'C14': ("C14_mst: mst_with performs EXACTLY n(n-1)/2 index computations for every valid matrix, any comparison behaviour, both build modes, any prior state (hence the bound); C14_small; C14_dispatch (generated table). The nnchain bound is NOT proved: it rests on the exact equality of the model's counter with the kodama_verif hook counter on every generated case plus the oracle checking 10n^2+50n on the real crate on adversarial inputs (sorted, reverse-sorted, all ties, geometric progressions) up to n=400 quick / 2000 thorough.",
+         "Lean kernel + standard axioms; Active-list refinement and Mat index lemmas proved; the counter placement in the model is hand-modelled and tied to the hook counter by exact comparison; hook: thread-local counter in matrix_to_condensed_idx under cfg(kodama_verif).",
+         "Lean 4 theorem (exact count for mst) + exact counter correspondence with the instrumented crate + bound oracle"),
 }
 NOT_YET = "check not built yet in this round (build in progress)"
 
